@@ -45,7 +45,7 @@ META = {
 THEOREMS = [
     "aligned_all_histories", "length_is_epochs", "immutable", "objects_never_change", "history_independent",
     "eq_hash", "F_agrees_when_fresh", "c04_side_channel_refuted", "c04_cache_refuted", "c04_rebuild_refuted",
-    "c04_eq_broadcast_refuted",
+    "c04_eq_broadcast_refuted", "c04_eq_instant_refuted", "eq_hash_instant",
 ]
 
 REQ = "From Verif Require Import Model.C04_TimeArray."
@@ -71,6 +71,8 @@ WHAT = {
                                   "(week, seconds, day) columns as rows: garbage values, 3 rows per call, or ValueError",
     "c04_scalar_rebuild_object_formats": "a single epoch in datetime / isot (and iso, yday, date, yydddsssss, decimalyear) format "
                                          "cannot be rebuilt from its 0-d value: copy/deepcopy/subset(int) of t[i] raise TypeError",
+    "c04_hash_python_float": "a single Time built from one datetime keeps jd1/jd2 as Python floats; it equals the element t[0] of "
+                             "an array (numpy.float64) but __hash__ hashes str() of the one and the bytes of the other",
     "c04_delattr_allowed": "__setattr__ is blocked but __delattr__ is not: `del t.fmt` succeeds and breaks the array",
 }
 
@@ -883,6 +885,41 @@ def eqhash_cases(ctx, rng):
                     srcs.append("root()." + ".".join(trip) + "[1]")
             except Exception:
                 pass
+        # the same instants with another jd1/jd2 split (from_jds, and through arithmetic with a TimeDelta): not the same
+        # jd pairs, so == must be False (and whatever == says, equal arrays must hash equally)
+        for label, d1 in (("jd1 + 0.5, jd2 - 0.5", 0.5), ("jd1 - 1, jd2 + 1", -1.0), ("jd1 + 0.25, jd2 - 0.25", 0.25)):
+            try:
+                x = type(r0).from_jds(r0.jd1 + d1, r0.jd2 - d1, r0.fmt)
+                pool.append(x)
+                srcs.append(f"<root re-split: from_jds({label})>")
+                if cfg.n > 1:
+                    pool.append(x[1:])
+                    srcs.append(f"<root re-split: from_jds({label})>[1:]")
+            except Exception:
+                pass
+        try:
+            from midgard.data.time import TimeDelta
+            half = TimeDelta(np.full(cfg.n, 0.5), scale=cfg.scales[0], fmt="days")
+            back = (r0 + half) - half
+            if back.fmt != r0.fmt:
+                back = type(back).from_jds(back.jd1, back.jd2, r0.fmt)
+            pool.append(back)
+            srcs.append("(root() + half a day) - half a day")
+        except Exception:
+            pass
+        # a single epoch built from one Python datetime keeps jd1/jd2 as Python floats
+        try:
+            from datetime import datetime as _dt, timedelta as _td
+            from midgard.data.time import Time as _Time
+            e0 = r0[0]
+            when = _dt(2000, 1, 1) + _td(days=float(e0.jd1) - 2451544.5) + _td(days=float(e0.jd2))
+            x = _Time(when, scale=cfg.scales[0], fmt="datetime")
+            pool.append(x)
+            srcs.append(f"Time({when!r}, scale={cfg.scales[0]!r}, fmt='datetime')   # = root()[0]")
+            pool.append(e0)
+            srcs.append("root()[0]")
+        except Exception:
+            pass
         for label, bump in (("1 ulp", None), ("1e-16", 1e-16), ("1e-15", 1e-15), ("-3e-16", -3e-16)):
             try:
                 jd2 = np.nextafter(r0.jd2, 1.0) if bump is None else r0.jd2 + bump
@@ -898,7 +935,7 @@ def eqhash_cases(ctx, rng):
             except Exception:
                 obs.append(None)
         for i in range(len(pool)):
-            for j in range(len(pool)):
+            for j in range(0 if hi < 3 else i, len(pool)):   # both orders for the three fixed configurations
                 if obs[i] is None or obs[j] is None:
                     continue
                 try:
@@ -921,7 +958,8 @@ def eqhash_cases(ctx, rng):
                             ctx.count("eqhash:nearly_equal_pairs")
                 except Exception:
                     pass
-                cases.append(f"({oobs_term(obs[i])}, {oobs_term(obs[j])}, {eo}, {emit.b(hq)})")
+                pyf = isinstance(pool[i].jd1, float) or isinstance(pool[j].jd1, float)
+                cases.append(f"({oobs_term(obs[i])}, {oobs_term(obs[j])}, {eo}, {emit.b(hq)}, {emit.b(pyf)})")
                 metas.append(dict(kind="eq_hash", root=cfg.how(), a=srcs[i], b=srcs[j], eq=["False", "True", "raised"][eo],
                                   hashes_equal=bool(hq)))
                 ctx.case(("EQ", cfg.key(), srcs[i], srcs[j]), nontrivial=(i != j))
@@ -1476,6 +1514,10 @@ def run(ctx):
                 n_rep += 1
                 if n_rep > 10:          # the first ten replay files are enough, the rest is in the histogram
                     continue
+            if vd == 3 and name == "eqhash":
+                ctx.count("quirk:c04_hash_python_float")
+                ctx.finding("c04_hash_python_float", WHAT["c04_hash_python_float"], rep)
+                continue
             if vd == 2 and rep.get("kind") == "element_columns":
                 ctx.count("quirk:c04_gpsws_element_columns")
                 ctx.finding("c04_gpsws_element_columns", WHAT["c04_gpsws_element_columns"], rep)
